@@ -460,4 +460,11 @@ std::string run_case(const std::vector<std::string>& w)
 }
 } // namespace
 
+// On a broken tree thousands of cases may end in a sanitizer report, each followed by a restart of this driver by the
+// runner; symbolising every report (an external symbolizer process per crash) would dominate the run time.  The crash
+// kind on the first report line is what the check uses; replaying a case by hand with ASAN_OPTIONS=symbolize=1 gives
+// the full stack.
+extern "C" const char* __asan_default_options() { return "symbolize=0:fast_unwind_on_fatal=1"; }
+extern "C" const char* __ubsan_default_options() { return "symbolize=0"; }
+
 int main(int argc, char** argv) { return vh::driver_main(argc, argv, run_case); }
